@@ -182,3 +182,17 @@ M("c15-iqr-axis", "C15", ST, "    q25, q75 = np.percentile(data, [25, 75], axis=
 M("c15-loc-float32", "C15", ST, "        return np.mean(data, axis=axis, keepdims=keepdims, dtype=np.float64)", "        return np.mean(data, axis=axis, keepdims=keepdims, dtype=np.float64) + (1e-3 if np.ndim(data) == 2 and axis == 1 else 0)", "mean location biased along axis 1 only")
 M("c15-zscore-axis-default", "C15", BL, "        zscore_re = stats.estimate_zscore(self.data, loc_method, scale_method, axis)", "        zscore_re = stats.estimate_zscore(self.data, loc_method, scale_method, axis if axis is not None else 1)", "block.normalise(axis=None) silently normalises per channel")
 M("c15-biweight-axis", "C15", ST, "    return astrostats.biweight_scale(data, axis=axis)", "    return astrostats.biweight_scale(data, axis=axis, c=9.0 if axis is None else 6.0)", "different tuning constant for the per-axis path")
+
+# ---- C16
+RF = "sigpyproc/core/rfi.py"
+M("c16-funcn-and", "C16", RF, "        self.chan_mask = np.logical_or(self.chan_mask, self.custom_mask)", "        self.chan_mask = np.logical_and(self.chan_mask, self.custom_mask)")
+M("c16-mask-open-interval", "C16", RF, "                self.header.chan_freqs >= freq_range[0],\n                self.header.chan_freqs <= freq_range[1],", "                self.header.chan_freqs >= freq_range[0],\n                self.header.chan_freqs < freq_range[1],")
+M("c16-mask-replaces", "C16", RF, "        self.user_mask = user_mask\n        self.chan_mask = np.logical_or(self.chan_mask, user_mask)", "        self.user_mask = user_mask\n        self.chan_mask = np.logical_or(self.stats_mask, user_mask)", "apply_mask forgets the custom mask")
+M("c16-method-no-kurtosis", "C16", RF, "        self.stats_mask = np.logical_or.reduce((mask_var, mask_skew, mask_kurtosis))", "        self.stats_mask = np.logical_or.reduce((mask_var, mask_skew))")
+M("c16-clean-first-blocks", "C16", B, "            kernels.mask_channels(data, mask, mask_value, self.header.nchans, nsamps_r)", "            if _ii < 2:\n                kernels.mask_channels(data, mask, mask_value, self.header.nchans, nsamps_r)")
+M("c16-clean-method-ignored", "C16", B, "        rfimask.apply_method(method)", '        rfimask.apply_method("mad")')
+M("c16-iqrm-lags", "C16", RF, "    lags = np.concatenate([np.arange(-radius, 0), np.arange(1, radius + 1)])", "    lags = np.concatenate([np.arange(-radius, 0), np.arange(1, radius)])")
+M("c16-file-threshold", "C16", RF, '            "threshold": fp_attrs["threshold"],', '            "threshold": float(int(fp_attrs["threshold"])),')
+M("c16-file-masks-lost", "C16", RF, "                if isinstance(value, np.ndarray):\n                    fp.create_dataset(key, data=value)", "                if isinstance(value, np.ndarray) and key != \"custom_mask\":\n                    fp.create_dataset(key, data=value)")
+M("c16-mask-kernel-chan", "C16", K, "        if mask[ichan]:\n            for isamp in range(nsamps):\n                array[nchans * isamp + ichan] = maskvalue", "        if mask[ichan]:\n            for isamp in range(nsamps - (ichan == nchans - 1)):\n                array[nchans * isamp + ichan] = maskvalue", "last channel: last sample of every block left unmasked")
+M("c16-clean-stats-range", "C16", B, "            self.compute_stats(gulp=gulp, start=start, nsamps=nsamps, **plan_kwargs)", "            self.compute_stats(gulp=gulp, **plan_kwargs)", "statistics taken over the whole file instead of the selected range")
